@@ -33,7 +33,7 @@ def run(tier: str) -> int:
               "re-association through a supplied time unit ≤ 1e-9); overlap warning present iff a data column names a "
               "function; a supplied column with *different* values must be used (consumers change or n itself is returned). "
               "distinct = (population, node).")
-    common.build_and_audit(r, ["C05", "C05Sim", "T3"], leanchecker=not quick)
+    common.build_and_audit(r, ["C05", "C05Sim", "C05Rule", "T3"], leanchecker=not quick)
     rnd = common.rng("C05")
     t3.run_t3(r, 1000 * common.seed() + 5, 40 if quick else 600)
     t4.run_t4_quick(r, common.rng("C05-T4"), quick)
